@@ -188,6 +188,10 @@ impl<T> Receiver<T> {
                 Err(TryRecvError::Disconnected) => Err(RecvTimeoutError::Disconnected),
                 Err(TryRecvError::Empty) => {
                     TIMEOUTS_TAKEN.with(|c| c.set(c.get() + 1));
+                    // even an attempt that does not wait takes time: without this tick a caller
+                    // that recomputes "rate - elapsed" exactly at its deadline (the controller
+                    // with a progress callback) would see a remaining time of zero for ever
+                    advance_clock(Duration::from_nanos(1));
                     Err(RecvTimeoutError::Timeout)
                 }
             };
